@@ -218,6 +218,9 @@ class Oracle:
             while True:
                 chain.append({})
                 try:
+                    # statements of the condition block (reads / isNil / plain assignments) run in the emptied loop scope
+                    for cs in (s[4] if len(s) > 4 else []):
+                        self.stmt(cs, chain, ns)
                     go = self.expr(("less", s[1], s[2]), chain, ns)
                 finally:
                     chain.pop()
@@ -330,7 +333,8 @@ def r_stmt(s):
         return E(Bin("do", Bin("to", Bin("from", Un("for", S(s[1])), N(s[2])), N(s[3])), r_block(s[4])))
     if k == "while":
         body = Code(Asg(s[1], Bin("+", Var(s[1]), N(1))), *[r_stmt(x) for x in s[3]])
-        return E(Bin("do", Un("while", Code(E(Bin("<", Var(s[1]), N(s[2]))))), body))
+        pre = [r_stmt(x) for x in (s[4] if len(s) > 4 else [])]
+        return E(Bin("do", Un("while", Code(*(pre + [E(Bin("<", Var(s[1]), N(s[2])))]))), body))
     if k == "switch":
         parts = []
         for cv, blk in s[2]:
@@ -478,7 +482,16 @@ class ScopeGen(M.Gen):
         if kind == "while":
             self.wn += 1
             w = "_w%d" % self.wn
-            return [("loc", w, ("lit", 0)), ("while", w, r.choice([1, 2, 2]), inner)]
+            # the condition block looks at (and sometimes plainly assigns) names the body may bind: what the body bound
+            # in one round must be gone when the condition runs again
+            pre = []
+            if r.random() < 0.7:
+                pre.append(self.mark_read([self.local()]))
+            if r.random() < 0.5:
+                pre.append(self.mark_nil(self.local()))
+            if r.random() < 0.3:
+                pre.append(("asg", self.local(), ("lit", self.fresh())))
+            return [("loc", w, ("lit", 0)), ("while", w, r.choice([2, 2, 3]), inner, pre)]
         if kind == "count":
             return [("count", inner, [self.fresh() for _ in range(r.choice([1, 2]))])]
         if kind in ("apply", "select", "findif"):
@@ -665,7 +678,8 @@ class ScopeGen(M.Gen):
         if kind == "for":
             loop = [("for", c("_i"), 0, 2, body)]
         elif kind == "while":
-            loop = [("loc", "_w1", ("lit", 0)), ("while", "_w1", 3, body)]
+            loop = [("loc", "_w1", ("lit", 0)), ("while", "_w1", 3, body,
+                                                  [("mark", self.next_mark(), [("isnil", c("_q")), ("isnil", c("_xy"))])])]
         else:
             loop = [(kind, body, [self.fresh(), self.fresh(), self.fresh()])]
         return [("loc", c("_abc"), ("lit", self.fresh()))] + loop + \
